@@ -195,15 +195,53 @@ def check_decoding(ctx, w):
     g = w.model.func(EF, 'ELFFile._read_dwarf_section')
     genv = expr.FEnv(g.node, params=('section', 'relocate_dwarf_sections'), inline=False)
     tr = expr.assign_trace(g.node, genv)
-    ctx.ob('R-MPT', g.construct, 'fresh BytesIO over section.data()', tr.get('section_stream') == [('=', 'BytesIO()')] and tr.get('section_data') == [('=', 'data(section)')],
-           got=(tr.get('section_stream'), tr.get('section_data')), msg='one private stream per section over the (gABI-decompressed) logical bytes')
-    ctx.ob('R-MPT', g.construct, 'whole payload written (phantom bytes: every other byte)',
-           'section_stream.write(section_data[::2] if phantom_bytes else section_data)' in U(g.node))
+    # Values read off the paths, separately for files with and without phantom bytes (so that a conditional expression and an
+    # if statement are the same thing): what is written into the private stream, and the size/address the descriptor carries.
+    import copy as _copy
+    writes = [c for c in ast.walk(g.node) if isinstance(c, ast.Call) and isinstance(c.func, ast.Attribute) and c.func.attr == 'write' and
+              isinstance(c.func.value, ast.Name)]
     mk = [c for c in ast.walk(g.node) if isinstance(c, ast.Call) and dispatch.callee_name(c) == 'DebugSectionDescriptor']
-    kw = dict((k.arg, U(k.value)) for k in mk[0].keywords) if mk else None
-    want = {'stream': 'section_stream', 'name': 'section.name', 'global_offset': "section['sh_offset']",
-            'size': 'section.data_size // 2 if phantom_bytes else section.data_size', 'address': "section['sh_addr']"}
-    ctx.ob('R-MPT', g.construct, 'descriptor: stream, logical size, address', kw == want, got=kw, expected=want,
+    ok_stream = ok_pay = ok_desc = bool(writes) and len(mk) == 1
+    got_pay, got_desc = {}, {}
+    n_paths = 0
+    for assume in (True, False):
+        for p in paths.func_paths(g.node):
+            if p.end[0] != 'return':
+                continue
+            facts = expr.Facts(expr.CP(expr.cond_str(t, genv), pol) for t, pol in p.conds())
+            if facts.contradiction or facts.get('T(phantom_bytes)') not in (None, assume) or facts.get('T(has_phantom_bytes(self))') not in (None, assume):
+                continue
+            n_paths += 1
+
+            def val(node, upto=None):
+                store = expr.path_store(p, upto)
+                store['phantom_bytes'] = ast.Constant(value=assume)
+                e = expr._StoreSubst(store).visit(_copy.deepcopy(node))
+                # the path may have bound values *from* phantom_bytes before the override: substitute once more
+                e = expr._StoreSubst({'phantom_bytes': ast.Constant(value=assume)}).visit(e)
+                ast.fix_missing_locations(e)
+                return expr.nfs(e, expr.FEnv())
+            w0 = [c for c in writes if any(any(x is c for x in ast.walk(s)) for s in p.stmts())]
+            if len(w0) != 1:
+                ok_pay = False
+                continue
+            stream_val = val(w0[0].func.value, upto=w0[0])
+            pay = val(w0[0].args[0], upto=w0[0])
+            got_pay[assume] = pay
+            if stream_val != 'BytesIO()':
+                ok_stream = False
+            if pay != ('slice(data(section),,,2)' if assume else 'data(section)'):
+                ok_pay = False
+            kw = dict((k.arg, val(k.value, upto=mk[0])) for k in mk[0].keywords)
+            got_desc[assume] = kw
+            want = {'stream': 'BytesIO()', 'name': 'name', 'global_offset': 'sh_offset',
+                    'size': 'floordiv(data_size,2)' if assume else 'data_size', 'address': 'sh_addr'}
+            if kw != want:
+                ok_desc = False
+    ctx.ob('R-MPT', g.construct, 'fresh BytesIO over section.data()', ok_stream and n_paths >= 2, got=got_pay,
+           msg='one private stream per section over the (gABI-decompressed) logical bytes')
+    ctx.ob('R-MPT', g.construct, 'whole payload written (phantom bytes: every other byte)', ok_pay and set(got_pay) == {True, False}, got=got_pay)
+    ctx.ob('R-MPT', g.construct, 'descriptor: stream, logical size, address', ok_desc and set(got_desc) == {True, False}, got=got_desc,
            msg='size must be the logical (decompressed) size, address the section address')
     h = w.model.func(EF, 'ELFFile.has_phantom_bytes')
     rets = [expr.nfs(r.value, expr.FEnv(h.node)) for r in expr.returns_of(h.node)]
@@ -228,8 +266,24 @@ def check_dom(ctx, w):
            tr.get('compression_type') == [('=', 'read(stream,4)')] and tr.get('uncompressed_size') == [('=', "index(unpack(struct,'>Q',read(stream,8)),0)")] and
            [o.t() for o in streams.func_ops(f.node, env)][:1] == [('seek', 'stream', '0', 'SEEK_SET')], got=(tr.get('compression_type'), tr.get('uncompressed_size')))
     src = U(f.node)
-    ctx.ob('R-DOM', f.construct, 'every chunk inflated and the tail flushed', 'uncompressed_stream.write(decompressor.decompress(chunk))' in src and
-           'uncompressed_stream.write(decompressor.flush())' in src and 'if not chunk:\n            break' in src)
+    # one iteration of the inflate loop: an empty read leaves the loop with nothing written, any other chunk is inflated and written
+    lps = [n for n in ast.walk(f.node) if isinstance(n, ast.While)]
+    seen = set()
+    ok_l = len(lps) == 1
+    for p in (paths.enum_paths(lps[0].body) if ok_l else []):
+        ev = expr.path_events(p, env)
+        stm = [x[1] for x in ev if x[0] == 's']
+        cs = [x[1] for x in ev if x[0] == 'c']
+        if cs == [expr.CP('T(chunk)', False)]:
+            seen.add('end')
+            ok_l = ok_l and stm == ['chunk = section.stream.read(4096)'] and p.end[0] == 'break'
+        elif cs == [expr.CP('T(chunk)', True)]:
+            seen.add('chunk')
+            ok_l = ok_l and stm == ['chunk = section.stream.read(4096)', 'uncompressed_stream.write(decompressor.decompress(chunk))'] and p.end[0] == 'fall'
+        else:
+            ok_l = False
+    ctx.ob('R-DOM', f.construct, 'every chunk inflated and the tail flushed', ok_l and seen == {'end', 'chunk'} and
+           'uncompressed_stream.write(decompressor.flush())' in src, got=sorted(seen))
     ctx.ob('R-DOM', f.construct, 'size = measured size of the inflated stream; descriptor replaced',
            tr.get('size') == [('=', 'tell(uncompressed_stream)')] and 'return section._replace(stream=uncompressed_stream, size=size)' in src, got=tr.get('size'))
     # debug link
